@@ -66,7 +66,8 @@ func RegistryTaken() [][2]uint32 {
 // NewPoolArgs returns the arguments for gen.NewPool: registry + user elements of supported
 // types, and all taken ids.
 func NewPoolArgs() ([]ref.Field, [][2]uint32) {
-	known := append(append([]ref.Field{}, RegistryFields()...), UserFields()...)
+	// (the long fixed-length octet arrays are left out: three records of them exceed a message)
+	known := append(append([]ref.Field{}, RegistryFields()...), UserFields()[:int(ref.NumTypes)+100]...)
 	return known, RegistryTaken()
 }
 
